@@ -37,15 +37,15 @@ CHECKS = {
          "a request is handed over only below the limit, refused (exactly one WouldBlock reply, never executed) only at the limit, duplicates ignored", "5/C12", "mc"),
  "C13": ("model_checking", "explicit-state breadth-first search over all event histories of the real MaxChannelsPerKey (replayed from scratch), incl. a listener poll inside the tracker's drop",
          "every history up to the depth over {arrive a, arrive b, poll, close i, close i with nested poll at the yield point} for n in {1,2} agrees with a per-key counter at every admission decision", "5/C13", "mc"),
- "C14": ("model_checking", "stateless deviation-bounded DFS over three transport flavours with a Sink-contract monitor on the call log",
+ "C14": ("model_checking", "stateless deviation-bounded DFS over four transport shapes (always ready, socket-like, bounded-queue-like, own buffer freed by flush) with a Sink-contract monitor on the call log",
          "ready-before-send, no write after close/error, no idle with unflushed items, no retry inside one poll, on every execution within the bound", "5/C14", "mc"),
- "C15": ("exploration", "exhaustive enumeration of fragmentation schedules (all <=3-chunk cuts, write sizes, Pending placements, truncations) and channel histories over a message corpus on the real transports",
+ "C15": ("exploration", "exhaustive enumeration of fragmentation schedules (all <=3-chunk cuts, write sizes, Pending placements on writes and flushes, truncations), channel histories, and framing configurations of the shipped tcp/unix socket transports, over a message corpus on the real transports",
          "every corpus sequence (length 1-3) through the real serde_transport (Json, Bincode) under every listed write policy and every <=3-chunk read cut reads back identical and ends with end-of-stream; every io::ErrorKind per the 18-entry table; omitted optional fields decode to defaults; in-memory channels over all send/recv/drop histories", "5/C15", "mc"),
- "C16": ("exploration", "exhaustive single-byte mutation / truncation / boundary-value enumeration into real endpoints with catch_unwind, three subscriber regimes",
+ "C16": ("exploration", "exhaustive single-byte mutation / truncation / boundary-value enumeration into real endpoints with catch_unwind, three subscriber regimes; exhaustive grids of histories (flood run-length pairs within one poll, connection age x deadline, short timed action sequences on one id)",
          "every 1-byte substitution and truncation of valid frames, boundary length prefixes, all bodies <=2 bytes, boundary-valued well-typed messages: no panic at either end, nothing stuck, a probe request is still served after every well-formed odd message", "5/C16", "mc"),
  "C18": ("model_checking", "stateless deviation-bounded DFS with distinct caller trace contexts; wire-level trace oracle",
          "request and cancel trace fields on the wire for every schedule incl. cancellation at every point", "5/C18", "mc"),
- "C17": ("exploration", "exhaustive enumeration over a grid of programs (service definitions; pairwise cover in quick, cover + 900 grid points in thorough), each compiled with the real macro and executed over a real client/server pair",
+ "C17": ("exploration", "exhaustive enumeration over a grid of programs (service definitions; pairwise cover in quick, cover + 900 grid points in thorough), each compiled with the real macro and executed over a real client/server pair, without a subscriber and under a tracing-opentelemetry layer",
          "for every accepted definition and every method: exactly one invocation of that method with the arguments in order and the request's context, the right value back, RequestName '<Service>.<method>'; collision candidates are rejected at compile time or behave", "5/C17", "macro_grid"),
  "C19": ("exploration", "exhaustive enumeration of hook nestings (<=3 wrappers, 259 generic instantiations) x behaviour assignments against a reference interpreter",
          "for every nesting and every assignment of before/after/handler behaviours the invocation log (order, context seen, result seen) and the final Result equal the reference interpreter's", "5/C19", "mc"),
